@@ -27,7 +27,7 @@ _NS = None
 LOOP = ['unroll_for', 'split', 'unroll_while']
 ROUNDING = ['unfold_special', 'unfold_overflow', 'unfold_neg_zero', 'float_to_fixed', 'rescale_fixed']
 AIMABLE = LOOP + ['inline'] + ROUNDING
-RULES = ['rw_fma', 'rw_sum', 'rw_dbl']     # user rewrite rules (fpy2.rewrite.Rewrite), aimed like strategies
+RULES = ['rw_fma', 'rw_sum', 'rw_dbl', 'rw_peel']     # user rewrite rules (fpy2.rewrite.Rewrite), aimed like strategies
 OPAQUE = ['simplify', 'elim_iter', 'fuse', 'elim_round', 'lift_context', 'close']
 
 
@@ -166,7 +166,7 @@ def gen_params(r: random.Random, name: str) -> dict:
     if name == 'unfold_overflow':
         return {'early_check': r.random() < 0.5}
     if name in RULES:
-        return {'repeat': r.choice([1, 1, 2])}
+        return {'repeat': r.choice([1, 1, 2, 3])}
     return {}
 
 
@@ -415,53 +415,76 @@ class World:
             self.vio('forward-empty-region', {'result': repr(rp)}, where_kind=how)
             return res
         rstmts = [resolved] if rp[0] == 'stmt' else list(resolved)
-        if len(model) == 1:
-            (pos, exact, verbatim), = model
-            self.stats.count('forward_model', pos[0])
-            if pos[0] == 'path':
-                want_fp = rec['fps'][0] if verbatim else None
-                if rp[0] != 'stmt' and rhi - rlo == 1:
-                    rp = ('stmt', rblock + (rlo,))
-                if rp[0] != 'stmt':
-                    self.vio('forward-unrelated', {'why': 'a surviving statement forwarded to a region', 'model': repr(pos), 'result': repr(rp)}, where_kind=how)
-                elif verbatim and M.fingerprint(rstmts[0]) != want_fp:
-                    self.vio('forward-unrelated', {'why': 'resolved statement differs from the original', 'model': repr(pos), 'result': repr(rp),
-                                                   'got': _fmt(rstmts[0])}, where_kind=how)
-                elif not verbatim and M.fingerprint(rstmts[0], header_only=True) != rec['hfps'][0]:
-                    self.vio('forward-unrelated', {'why': 'resolved compound statement has another header', 'model': repr(pos), 'result': repr(rp)}, where_kind=how)
-                elif exact and rp[1] != pos[1]:
-                    self.vio('forward-unrelated', {'why': 'not the path of the descendant', 'model': repr(pos), 'result': repr(rp)}, where_kind=how)
-            elif pos[0] == 'span':
-                _, b, lo, hi = pos
-                if not (rblock == b and lo <= rlo and rhi <= hi):
-                    self.vio('forward-unrelated', {'why': 'image of a rewritten statement reaches outside what replaced it',
-                                                   'model': repr(pos), 'result': repr(rp)}, where_kind=how)
-            else:
-                # beneath a rewritten statement: raising is expected; resolving is accepted only to the same statement
-                ok = any(M.fingerprint(s) == rec['fps'][0] or (rec['locs'][0] is not None and getattr(s, 'loc', None) == rec['locs'][0])
-                         for s in rstmts)
-                if not ok:
-                    self.vio('forward-unrelated', {'why': 'statement beneath a rewritten one resolved elsewhere', 'result': repr(rp)}, where_kind=how)
-            return res
-        # a region: every member's image must lie in one block; the answer must stay inside their hull
+        R = {rblock + (i,) for i in range(rlo, rhi)}
+        members = set(rec['paths'])
+        classes = sorted({pos[0] for pos, _, _ in model})
+        self.stats.count('forward_model', '+'.join(classes) if len(model) > 1 else classes[0])
+        # (a) the answer holds no statement that is the image of a *different* old statement
+        for q, (qpos, qexact) in self.all_images(rec['node'], ti).items():
+            if q in members or any(beneath_or_at(q, o) or beneath_or_at(o, q) for o in members):
+                continue
+            if qpos[0] == 'path' and qexact and qpos[1] in R:
+                self.vio('forward-unrelated', {'why': 'the answer includes the image of another statement', 'other': repr(q),
+                                               'its_image': repr(qpos[1]), 'result': repr(rp), 'cursor': repr(sorted(members))},
+                         where_kind=how)
+                return res
+        # (b) per member: a survivor must be in the answer; what replaced a rewritten one bounds it
         spans = []
-        for pos, exact, verbatim in model:
+        for o, fp_o, hfp_o, loc_o, (pos, exact, verbatim) in zip(rec['paths'], rec['fps'], rec['hfps'], rec['locs'], model):
             if pos[0] == 'path':
+                if exact and pos[1] not in R:
+                    self.vio('forward-unrelated', {'why': 'the descendant of the named statement is not in the answer',
+                                                   'model': repr(pos), 'result': repr(rp)}, where_kind=how)
+                    return res
+                if exact:
+                    t = M.resolve(f.ast, pos[1])
+                    if verbatim and M.fingerprint(t) != fp_o:
+                        self.vio('forward-unrelated', {'why': 'model and program disagree on the survivor', 'model': repr(pos)}, where_kind=how)
+                        return res
+                else:
+                    # duplicates: demand only that an equivalent statement is in the answer
+                    if verbatim and not any(M.fingerprint(x) == fp_o for x in rstmts):
+                        self.vio('forward-unrelated', {'why': 'no statement equivalent to the original in the answer',
+                                                       'model': repr(pos), 'result': repr(rp)}, where_kind=how)
+                        return res
                 spans.append((pos[1][:-1], pos[1][-1], pos[1][-1] + 1))
             elif pos[0] == 'span':
                 spans.append((pos[1], pos[2], pos[3]))
             else:
+                # beneath a rewritten statement: raising is expected; resolving only to the same statement
+                ok = any(M.fingerprint(x) == fp_o or (loc_o is not None and getattr(x, 'loc', None) == loc_o) for x in rstmts)
+                if not ok:
+                    self.vio('forward-unrelated', {'why': 'statement beneath a rewritten one resolved elsewhere', 'result': repr(rp)}, where_kind=how)
+                    return res
                 spans.append(None)
-        self.stats.count('forward_model', 'region')
-        if any(s is None for s in spans) or len({s[0] for s in spans}) != 1:
-            self.stats.count('undecided', 'region-came-apart')
-            return res
-        b = spans[0][0]
-        lo, hi = min(s[1] for s in spans), max(s[2] for s in spans)
-        if not (rblock == b and lo <= rlo and rhi <= hi):
-            self.vio('forward-unrelated', {'why': 'region image reaches outside the images of its members',
-                                           'model': repr((b, lo, hi)), 'result': repr(rp)}, where_kind=how)
+        # (c) where every member was rewritten (no survivor to anchor on), the answer stays inside what replaced them
+        if spans and all(sp is not None for sp in spans) and all(pos[0] == 'span' for pos, _, _ in model):
+            if len({sp[0] for sp in spans}) == 1:
+                b = spans[0][0]
+                lo, hi = min(sp[1] for sp in spans), max(sp[2] for sp in spans)
+                if not (rblock == b and lo <= rlo and rhi <= hi):
+                    self.vio('forward-unrelated', {'why': 'image of rewritten statements reaches outside what replaced them',
+                                                   'model': repr((b, lo, hi)), 'result': repr(rp)}, where_kind=how)
+            else:
+                self.stats.count('undecided', 'region-came-apart')
         return res
+
+    def all_images(self, src: int, target: int) -> dict:
+        """Where the model puts every statement of node `src` in node `target`: path -> (position, exact)."""
+        key = (self.canon(src), self.canon(target))
+        cache = self.__dict__.setdefault('_img_cache', {})
+        if key in cache:
+            return cache[key]
+        f = self.nodes[self.canon(src)]['fn']
+        out = {}
+        for p, _ in M.walk(f.ast):
+            m = self.model_image({'node': src, 'paths': [p]}, target)
+            if isinstance(m, str):
+                break
+            pos, exact, verbatim = m[0]
+            out[p] = (pos, exact)
+        cache[key] = out
+        return out
 
     def do_apply(self, op):
         from fpy2.strategies import (TransformReferenceError, TransformDeclined, TransformError, StmtCursor, ExprCursor,
@@ -573,7 +596,7 @@ class World:
                     break
         for tgt in must_change:
             cs = [al.stmt.get(p) for p in tgt]
-            if cs and all(c is not None and c[0] == 'same' for c in cs):
+            if cs and all(c is not None and c[0] == 'same' for c in cs) and not _grew_around(al, tgt):
                 self.vio('listed-site-not-rewritten', {'site': repr(tgt), 'k': k}, strategy=name, where_kind=wk)
                 break
         # a rule object reused across applications answers as a freshly made one does
@@ -625,6 +648,20 @@ class World:
         for e in log.edits:
             b = from_repo_block(e.block_path)
             touched.append((b, e.index, e.index + e.removed, e.inserted))
+        # the arithmetic of the log: a block that survives grows by exactly what its edits say
+        for b, (nb, anchors, nlen) in al.block.items():
+            ob = M.resolve_block(f.ast, b)
+            if ob is None:
+                continue
+            # only blocks whose enclosing statements all survive (not beneath a reported edit)
+            if any(beneath_or_at(b, tb + (i,)) for tb, lo, hi, ins in touched for i in range(lo, hi)):
+                continue
+            delta = sum(ins - (hi - lo) for tb, lo, hi, ins in touched if tb == b)
+            if len(ob.stmts) + delta != nlen:
+                self.vio('edit-log-miscounts', {'block': repr(b), 'old_len': len(ob.stmts), 'new_len': nlen,
+                                                'edits_say': delta, 'edits': repr([t for t in touched if t[0] == b])[:200]},
+                         strategy=name, where_kind=wk)
+                return
         for p, c in al.stmt.items():
             if c[0] == 'same':
                 continue
@@ -754,6 +791,25 @@ class World:
                 if self.canon(ti) != self.canon(rec['node']):
                     self.check_forward(rec, ti, 'final-sweep')
         return self.vios
+
+
+def _grew_around(al, tgt) -> bool:
+    """Whether statements were inserted next to a site that itself survives verbatim (a rewrite
+    may keep the statement and put new ones before or after it)."""
+    b = tgt[0][:-1]
+    info = al.block.get(b)
+    if info is None:
+        return True
+    _, anchors, nlen = info
+    ob = M.resolve_block(al.old, b)
+    lo_i, hi_i = tgt[0][-1], tgt[-1][-1]
+    before = [(o, n) for o, n in anchors.items() if o < lo_i]
+    after = [(o, n) for o, n in anchors.items() if o > hi_i]
+    po, pn = max(before) if before else (-1, -1)
+    no, nn = min(after) if after else (len(ob.stmts), nlen)
+    if lo_i not in anchors or hi_i not in anchors:
+        return True
+    return (anchors[lo_i] - pn) != (lo_i - po) or (nn - anchors[hi_i]) != (no - hi_i)
 
 
 def _fp_counts(func) -> dict:
